@@ -280,11 +280,31 @@ def cases(g):
             b = a.T[0:1]
         elif how == 'astype':
             b = a.astype(a.dtype)
+        elif how == 'asarrayC-of-T':
+            b = np.asarray(a.T, order='C')
+        elif how == 'asarrayC':
+            b = np.asarray(a, order='C')
+        elif how == 'asarrayF-of-T':
+            b = np.asarray(a.T, order='F')
+        elif how == 'asarrayF':
+            b = np.asarray(a, order='F')
+        elif how == 'asfortran':
+            b = np.asfortranarray(a)
+        elif how == 'ascontig-of-T':
+            b = np.ascontiguousarray(a.T)
+        elif how == 'ascontig-strided':
+            b = np.ascontiguousarray(a[..., ::2])
+        elif how == 'copyF-ravelK':
+            c = a.copy(order='F')
+            b = c.ravel(order='K')
+        elif how == 'copyK-of-T':
+            b = a.T.copy(order='K').reshape(-1, order='A')
         if b.size:
             b[(0,) * b.ndim] = 1
             b.fill(1) if r.random() < 0.3 else None
         return (a, b)
-    for how in ('slice', 'T', 'reshape', 'Treshape', 'ravel', 'flatten', 'swap', 'adv', 'take', 'asarray', 'array', 'copy', 'squeeze', 'newaxis', 'int', 'slice-of-T', 'astype'):
+    for how in ('slice', 'T', 'reshape', 'Treshape', 'ravel', 'flatten', 'swap', 'adv', 'take', 'asarray', 'array', 'copy', 'squeeze', 'newaxis', 'int', 'slice-of-T', 'astype',
+                'asarrayC-of-T', 'asarrayC', 'asarrayF-of-T', 'asarrayF', 'asfortran', 'ascontig-of-T', 'ascontig-strided', 'copyF-ravelK', 'copyK-of-T'):
         yield 'alias.%s' % how, (lambda np, how=how: alias(np, how))
     # take / compress / repeat / shape manipulation
     idx = [r.randint(-sh[ax] - 1, sh[ax] + 1) for _ in range(r.randint(0, 3))]
